@@ -316,3 +316,76 @@ pub fn endpoint_identity(private_key: [u8; 32], server_name: &str) -> Result<(Pe
         .build()?;
     Ok((config.peer_id(), config.server_name().to_owned()))
 }
+
+// ---------------------------------------------------------------- H4c: per-RPC trace points
+
+fn fnv(b: &[u8]) -> String {
+    let mut h: u64 = 0xcbf29ce484222325;
+    for x in b {
+        h ^= *x as u64;
+        h = h.wrapping_mul(0x100000001b3);
+    }
+    format!("{}:{:016x}", b.len(), h)
+}
+
+fn describe_headers(h: &crate::types::HeaderMap) -> String {
+    let mut v: Vec<String> = h
+        .iter()
+        .map(|(k, v)| format!("{}:{}", hex::encode(k), hex::encode(v)))
+        .collect();
+    v.sort();
+    if v.is_empty() {
+        "-".into()
+    } else {
+        v.join("+")
+    }
+}
+
+pub(crate) fn describe_request(r: &crate::Request<Bytes>) -> String {
+    format!(
+        "route={} hdr={} body={}",
+        if r.route().is_empty() { "-".into() } else { hex::encode(r.route()) },
+        describe_headers(r.headers()),
+        fnv(r.body())
+    )
+}
+
+pub(crate) fn describe_response(r: &crate::Response<Bytes>) -> String {
+    format!(
+        "st={} hdr={} body={}",
+        r.status().to_u16(),
+        describe_headers(r.headers()),
+        fnv(r.body())
+    )
+}
+
+/// Records the life of one RPC on one side of a stream: `rpc conn=<stable id> sid=<stream index>
+/// <side>-<event> ...`, and `<side>-end` when the future that owns it ends or is dropped.
+pub(crate) struct RpcTrace {
+    key: String,
+    side: &'static str,
+    stage: &'static str,
+}
+
+impl RpcTrace {
+    pub(crate) fn new(side: &'static str, conn: usize, sid: u64) -> Self {
+        let t = Self {
+            key: format!("rpc conn={conn} sid={sid}"),
+            side,
+            stage: "open",
+        };
+        trace(format!("{} {}-open", t.key, side));
+        t
+    }
+
+    pub(crate) fn event(&mut self, stage: &'static str, detail: String) {
+        self.stage = stage;
+        trace(format!("{} {}-{} {}", self.key, self.side, stage, detail));
+    }
+}
+
+impl Drop for RpcTrace {
+    fn drop(&mut self) {
+        trace(format!("{} {}-end after={}", self.key, self.side, self.stage));
+    }
+}
